@@ -39,8 +39,11 @@ RECURSIVE MinMaxBy(_, _, _, _, _)
 MinMaxBy(pts, col, lo, hi, int) ==
     IF lo = hi THEN LET x == IF int THEN ValLimbs(pts[lo][col]) ELSE pts[lo][col] IN <<x, x>>
     ELSE LET mid == (lo + hi) \div 2
-         IN CHOOSE r \in { <<IF (IF int THEN LeS64(b[1], a[1]) ELSE FLe(b[1], a[1])) THEN b[1] ELSE a[1],
-                               IF (IF int THEN LeS64(a[2], b[2]) ELSE FLe(a[2], b[2])) THEN b[2] ELSE a[2]>> :
+         \* (a NaN is no real value: it never replaces a bound, and a bound that is NaN -- only NaNs so far -- gives way)
+         IN CHOOSE r \in { <<IF int THEN (IF LeS64(b[1], a[1]) THEN b[1] ELSE a[1])
+                               ELSE IF IsNaN64(b[1]) THEN a[1] ELSE IF IsNaN64(a[1]) THEN b[1] ELSE IF FLe(b[1], a[1]) THEN b[1] ELSE a[1],
+                               IF int THEN (IF LeS64(a[2], b[2]) THEN b[2] ELSE a[2])
+                               ELSE IF IsNaN64(b[2]) THEN a[2] ELSE IF IsNaN64(a[2]) THEN b[2] ELSE IF FLe(a[2], b[2]) THEN b[2] ELSE a[2]>> :
                              a \in {MinMaxBy(pts, col, lo, mid, int)}, b \in {MinMaxBy(pts, col, mid + 1, hi, int)} } : TRUE
 
 \* `reals` : per point, per record, the real value as f64 limbs (for coordinate records) -- provided
